@@ -537,6 +537,36 @@ func (cg *caseGen) recHandlerGrammar() {
 	cg.names = []string{"Item", "Inner", "RecA", "RecB"}
 }
 
+// deepRecoveryGrammar: recovery expressions that throw again WHILE they run, so that the number of recovery expressions in
+// progress grows with the input (round 18: a cap on that depth, wrong from the 65th nested throw on):
+//
+//	Doc    <- Word //{L} Resync
+//	Word   <- "a" Word / "b" / %{L}
+//	Resync <- "!" Word
+//
+// on the input ("!a")^k "b" the k-th throw is raised inside the recovery expression of the (k-1)-th.
+func (cg *caseGen) deepRecoveryGrammar() {
+	cg.chCount = 0
+	cg.cur = 0
+	l := pickStr(cg.r, []string{"L1", "L2", "L3"})
+	ch := cg.newChoice()
+	ch.Kids = []*pvcase.Expr{
+		seqOf(cg.litOf("a"), refTo("Word")),
+		cg.litOf("b"),
+		&pvcase.Expr{Kind: pvcase.KThr, Label: l},
+	}
+	labels := []string{l}
+	if cg.chance(0.3) {
+		labels = []string{"L9", l}
+	}
+	cg.rules = []*pvcase.Rule{
+		{Name: "Doc", Expr: &pvcase.Expr{Kind: pvcase.KRec, Kids: []*pvcase.Expr{refTo("Word"), refTo("Resync")}, Labels: labels}},
+		{Name: "Word", Expr: ch},
+		{Name: "Resync", Expr: seqOf(cg.litOf("!"), refTo("Word"))},
+	}
+	cg.names = []string{"Doc", "Word", "Resync"}
+}
+
 // floodGrammar: S <- .* "never" (kind 1) or S <- A* "never" ; A <- "a" {error} (kind 2)
 func (cg *caseGen) floodGrammar(kind int) {
 	cg.chCount = 0
@@ -767,6 +797,7 @@ func (g *generator) genCase(prof string) ([]*pvcase.Case, *caseGen) {
 	divergent, lrBudget := false, false
 	flood := 0                                     // error flood under a budget: 1 = undecodable bytes, 2 = action errors
 	recFamily := prof == "throw" && g.chance(0.06) // recursive handlers with several labels (floodGrammar's sibling)
+	deepRec := prof == "throw" && !recFamily && g.chance(0.03) // recovery expressions nested as deep as the input is long
 	memoFlood := prof == "memo" && g.chance(0.03)  // a re-parsed span with dozens of distinct code-block errors
 	// a keyword table: dozens of different terminals tried at one offset (the expected set of a failure there lists all)
 	wide := (prof == "core" || prof == "utf8") && g.chance(0.03)
@@ -837,6 +868,8 @@ func (g *generator) genCase(prof string) ([]*pvcase.Case, *caseGen) {
 		switch {
 		case recFamily:
 			cg.recHandlerGrammar()
+		case deepRec:
+			cg.deepRecoveryGrammar()
 		case flood != 0:
 			cg.floodGrammar(flood)
 		case memoFlood:
@@ -927,6 +960,15 @@ func (g *generator) genCase(prof string) ([]*pvcase.Case, *caseGen) {
 		}
 		c.Input = []byte(in)
 	}
+	if deepRec {
+		// depths on both sides of every plausible cap (16, 32, 64, 100, 128)
+		k := []int{0, 1, 2, 3, 15, 16, 17, 31, 32, 33, 63, 64, 65, 66, 99, 100, 101, 127, 128, 129}[g.r.IntN(20)]
+		if g.chance(0.3) {
+			k = g.r.IntN(135)
+		}
+		c.Input = []byte(strings.Repeat("!a", k) + pickStr(g.r, []string{"b", "b", "b", "", "!"}))
+		o.MaxExpr = 0
+	}
 	if memoFlood {
 		n := 3 + g.r.IntN(40) // both sides of any small window
 		c.Input = append(bytes.Repeat([]byte("a"), n), pickStr(g.r, []string{"y", "y", "x", "z"})...)
@@ -956,6 +998,9 @@ func (g *generator) genCase(prof string) ([]*pvcase.Case, *caseGen) {
 		o.Debug = false // debug output makes every expression ~50 times slower
 	}
 	c.Fuel = fuelFor(o.MaxExpr)
+	if deepRec {
+		c.Fuel = 6000 // about a dozen levels of the interpreter per nested recovery
+	}
 
 	out := []*pvcase.Case{c}
 
